@@ -59,6 +59,15 @@ impl<A: AttributeBind + AttributeUpdate> UnknownAttributeStorage for AttrSparseV
         lhs_inp: DartIdType,
         rhs_inp: DartIdType,
     ) -> TransactionClosureResult<(), AttributeError> {
+        if lhs_inp == rhs_inp {
+            // both inputs designate the same cell: nothing is merged, the value (if any) only
+            // follows the identifier
+            if out != lhs_inp {
+                let v = self.data[lhs_inp as usize].replace(trans, None)?;
+                self.data[out as usize].write(trans, v)?;
+            }
+            return Ok(());
+        }
         let new_v = match (
             self.data[lhs_inp as usize].read(trans)?,
             self.data[rhs_inp as usize].read(trans)?,
@@ -85,6 +94,15 @@ impl<A: AttributeBind + AttributeUpdate> UnknownAttributeStorage for AttrSparseV
         rhs_out: DartIdType,
         inp: DartIdType,
     ) -> TransactionClosureResult<(), AttributeError> {
+        if lhs_out == rhs_out {
+            // both outputs designate the same cell: nothing is split, the value (if any) only
+            // follows the identifier
+            if lhs_out != inp {
+                let v = self.data[inp as usize].replace(trans, None)?;
+                self.data[lhs_out as usize].write(trans, v)?;
+            }
+            return Ok(());
+        }
         let res = if let Some(val) = self.data[inp as usize].read(trans)? {
             AttributeUpdate::split(val)
         } else {
